@@ -197,7 +197,7 @@ CHECKS = {
          'DESIGN.md section 3 C13'),
  'C15': ('model_checking',
          'exhaustive debugger sessions (all command scripts of bounded length x breakpoint subsets x programs) vs a debugger model over the reference machine trace',
-         'About 4 million sessions: every script of <= 3 (4 thorough) commands over a 34-command alphabet (reads by label incl. labels spelled with hex digits only) (step, skip N incl. 0 / negative / '
+         'About 4 million sessions: every script of <= 3 commands over a 34-command alphabet (thorough: also 4 commands over an 11-command core, one of each kind) (reads by label incl. labels spelled with hex digits only) (step, skip N incl. 0 / negative / '
          'garbage, continue, the three continue-all spellings incl. mixed case, reads of words / unaligned / unmapped addresses / hex, bit '
          'and byte variables over a data segment with distinctive bits, help, unknown commands, empty lines, quit; running out = EOF) x '
          'every breakpoint subset of size <= 2 of the visited addresses + a never-visited one x 12 programs per width, through '
